@@ -147,7 +147,7 @@ func Now() int64 {
 	return atomic.AddInt64(&freeClock, 1)
 }
 
-const watchdog = 20 * time.Second
+const watchdog = 120 * time.Second // not an oracle: only bounds how long an unhooked blocking operation goes unnoticed (20 s was reached on an overloaded machine)
 
 // Run executes the given thread bodies under the scheduler, replaying prefix and then always
 // taking choice 0. setup runs before the threads start (un-scheduled).
@@ -553,6 +553,7 @@ type chanState struct {
 	closed   bool
 	closeVC  vclock
 	receiver *thread // harness thread parked in Recv
+	ref      any     // keeps the real channel alive: its address is the key of Sched.chans
 }
 
 func (c *chanState) canSend() bool {
@@ -582,7 +583,7 @@ func (s *Sched) chanOf(ch any) *chanState {
 	k := v.Pointer()
 	c, ok := s.chans[k]
 	if !ok {
-		c = &chanState{cap: v.Cap()}
+		c = &chanState{cap: v.Cap(), ref: ch}
 		s.chans[k] = c
 	}
 	return c
@@ -608,6 +609,20 @@ func SelectSendOrDone[T any](ch chan T, v T, done <-chan struct{}) int {
 	p := &pending{kind: opSelect, ch: s.chanOf(ch), done: done, recvVal: v, desc: "select{send,done}"}
 	s.point(p)
 	return p.selected
+}
+
+// PollDone replaces the non-blocking poll
+//
+//	select { case <-done: (true)  default: (false) }
+//
+// and reports whether done is closed. Under the scheduler the poll is a scheduling point of
+// its own (so that a cancellation by another thread can be ordered before or after it) and
+// the answer is then read directly: exactly one thread runs at a time.
+func PollDone(done <-chan struct{}) bool {
+	if s := exploring(); s != nil {
+		s.point(&pending{kind: opYield, desc: "select{done,default}"})
+	}
+	return isClosed(done)
 }
 
 // Recv is the harness side: receive from a channel filled by rewritten code.
